@@ -232,6 +232,59 @@ def run_cli(sc):
     return {"kind": "cli", "last": {"pfx": "", "ext": ".pin", "nchunks": 0}, "clean": out["clean"], "dirty": out["dirty"]}
 
 
+def run_protein_scenario(sc):
+    """sc: {seed, earlier: [bool with_proteins...], last: bool with_proteins}.  Runs with protein-level confidence (FASTA
+    of drivers/c08_worker.py): the protein level has its own intermediate file, written by another code path."""
+    import zlib
+    import mokapot
+    import pandas as pd
+    from drivers import c08_worker
+    mk.install_stub_pep()
+
+    def one(out_dir, with_proteins):
+        wd_in = Path(tempfile.mkdtemp(prefix="c09pin_"))
+        try:
+            ds, proteins = c08_worker.build({"data_seed": sc["seed"], "n": 400, "proteins": True}, wd_in)
+            scores = pd.read_csv(ds.filename, sep="\t")["f1"].to_numpy(dtype=float)
+            raised = ""
+            try:
+                mokapot.assign_confidence([ds], max_workers=1, scores=[scores], descs=[True], eval_fdr=0.5, dest_dir=out_dir,
+                                          prefixes=[None], decoys=True, proteins=proteins if with_proteins else None, rng=1,
+                                          peps_algorithm="stub")
+            except Exception as e:
+                raised = "%s: %s" % (type(e).__name__, str(e)[:160])
+            files = []
+            for fn in sorted(os.listdir(out_dir)):
+                if classify(fn)["kind"] == "result":
+                    with open(out_dir / fn, "rb") as fh:
+                        files.append({"name": fn, "rows": [[i, zlib.crc32(line) & 0x3FFFFFFF, 0, 1] for i, line in enumerate(fh)]})
+            return raised, files
+        finally:
+            shutil.rmtree(wd_in, ignore_errors=True)
+    wd = Path(tempfile.mkdtemp(prefix="c09p_"))
+    wc = Path(tempfile.mkdtemp(prefix="c09pc_"))
+    try:
+        for wp in sc["earlier"]:
+            one(wd, wp)
+        if not sc["last"]:
+            # result files of an earlier protein-level run are not intermediates and not results of this run: set aside
+            for fn in ("targets.proteins", "decoys.proteins"):
+                if (wd / fn).exists():
+                    os.unlink(wd / fn)
+        raised, files = one(wd, sc["last"])
+        listing = [classify(n) for n in sorted(os.listdir(wd))]
+        craised, cfiles = one(wc, sc["last"])
+        return {"kind": "assign", "last": {"pfx": "", "ext": ".pin", "nchunks": 1},
+                "clean": {"raised": craised, "files": cfiles, "input_after": []},
+                "dirty": {"raised": raised, "files": files, "input_after": [], "listing": listing}}
+    except Exception as e:
+        import traceback
+        return {"harness_error": "%s: %s %s" % (type(e).__name__, e, traceback.format_exc()[-700:])}
+    finally:
+        shutil.rmtree(wd, ignore_errors=True)
+        shutil.rmtree(wc, ignore_errors=True)
+
+
 def make_run(rng, k, prefix, fmt, idbase=0):
     """a run whose table is cut into exactly k chunks"""
     chunk = int(rng.integers(1, 4))
@@ -264,8 +317,12 @@ def run(ctx):
     pick = [groups[int(i)] for i in rng.permutation(len(groups))[:nsc]] if ctx.quick else groups * 2
     scenarios = []
     ncalls = []
+    # the model's abstract prefix "a" is rendered as an ordinary name or as one holding glob metacharacters (file names, not patterns)
+    PFX = ["a", "s[1]", "a", "x[ab]y", "r*1", "q?"]
     for gi, (k1, p1, k2, p2) in enumerate(pick):
         fmt = "parquet" if gi % 4 == 3 else "pin"
+        ren = lambda p, gi=gi: PFX[gi % len(PFX)] if p == "a" else p
+        p1, p2 = ren(p1), ren(p2)
         e = make_run(rng, k1, p1, fmt)
         if gi % 3 == 1:
             e.update(rollup=False)
@@ -283,10 +340,11 @@ def run(ctx):
         h, l = skel3[int(rng.integers(0, len(skel3)))]
         fmt = "pin"
         es = []
+        ren = lambda p, j=j: PFX[j % len(PFX)] if p == "a" else p
         for hh in h:
-            e = make_run(rng, hh["k"], hh["pfx"], fmt, idbase=100 * len(es))
+            e = make_run(rng, hh["k"], ren(hh["pfx"]), fmt, idbase=100 * len(es))
             es.append({"run": e, "fault": (int(rng.integers(1, 40)), bool(hh["kill"]))})
-        scenarios.append({"earlier": es, "last": make_run(rng, l["k"], l["pfx"], fmt, idbase=500), "class": ("seq3", j)})
+        scenarios.append({"earlier": es, "last": make_run(rng, l["k"], ren(l["pfx"]), fmt, idbase=500), "class": ("seq3", j)})
     # CLI
     cli = []
     for j in range(20 if ctx.quick else 200):
@@ -299,8 +357,14 @@ def run(ctx):
     run_scenario(scenarios[0])
     res = pmap(lambda i: run_scenario(scenarios[i]), len(scenarios), chunk=6)
     cres = [run_cli(c) for c in cli]
+    # protein-level runs: fresh directory / after an earlier protein-level run / a run without proteins after one with
+    psc = [{"seed": int(ctx.seed * 10 + j), "earlier": [[], [True], [True], [False, True]][j % 4], "last": j % 4 != 2}
+           for j in range(4 if ctx.quick else 24)]
+    pres = pmap(lambda i: run_protein_scenario(psc[i]), len(psc), chunk=1)
+    for p in psc:
+        ctx.count(("proteins", p["seed"], str(p["earlier"]), p["last"]))
     traces = []
-    for i, t in enumerate(res + cres):
+    for i, t in enumerate(res + cres + pres):
         if "harness_error" in t:
             raise MachineryError("driver failed on scenario %d: %s" % (i, t["harness_error"]))
         t["tid"] = i + 1
@@ -325,8 +389,14 @@ def run(ctx):
                            {"api": "assign_confidence", "class": str(sc["class"]), "faults": str([e.get("fault") for e in sc["earlier"]]),
                             "dirty_raised": t["dirty"]["raised"].split(":")[0],
                             "stale_chunks": sorted(e["name"] for e in t["dirty"]["listing"] if e["kind"] == "chunk")})
-            else:
+            elif i < len(scenarios) + len(cli):
                 ctx.reject({"cli": cli[i - len(scenarios)], "trace": t}, v["failed"], {"api": "cli_verify_pin", "case": i - len(scenarios)})
+            else:
+                p = psc[i - len(scenarios) - len(cli)]
+                ctx.reject({"proteins": p, "trace": {"listing": t["dirty"]["listing"], "dirty_raised": t["dirty"]["raised"]}}, v["failed"],
+                           {"api": "assign_confidence(proteins)", "earlier": str(p["earlier"]), "last_with_proteins": p["last"],
+                            "dirty_raised": t["dirty"]["raised"].split(":")[0],
+                            "left": sorted(e["name"] for e in t["dirty"]["listing"] if e["kind"] in ("level", "chunk"))})
     ctx.phase("hook_traces")
     from drivers import hooktrace
     hooktrace.validate_events(ctx, hooktrace.traced_repo_tests(hooktrace.REPO_TESTS[4:5] if ctx.quick else hooktrace.REPO_TESTS[4:]), "C09")
@@ -356,12 +426,14 @@ def run(ctx):
         rule="a case = (earlier runs with fault points, observed run): run-history skeletons come from Workdir.tla; for two-run histories "
              "EVERY intercepted I/O call of the earlier run is a fault point, once as Fail (OSError) and once as Kill (forked child "
              "_exit), plus the earlier run completing; three-run histories with sampled fault points; the CLI verify step with stale "
-             "'<pin>.tsv' files; distinct = distinct (history class, fault points)", exhaustive=not ctx.quick)
+             "'<pin>.tsv' files; protein-level runs (fresh directory, after an earlier protein-level run, without proteins after one "
+             "with); the model's prefix is rendered as a plain name or one holding glob metacharacters ([ ] * ?); "
+             "distinct = distinct (history class, fault points)", exhaustive=not ctx.quick)
 
 
 def replay(ctx, case):
     c = case["case"]
-    t = run_scenario(c["scenario"]) if "scenario" in c else run_cli(c["cli"])
+    t = run_scenario(c["scenario"]) if "scenario" in c else run_protein_scenario(c["proteins"]) if "proteins" in c else run_cli(c["cli"])
     t["tid"] = 1
     v = ctx.validate("WorkdirTrace", "Trace.cfg", [t])[1]
     if not v["accept"]:
